@@ -133,6 +133,9 @@ def gen_c18(rng, sid, nev):
     s.add("stop")
     return s
 
+# quirk name -> invariants that state exactly what the quirk breaks (dropped when the quirk is switched on)
+NF_QUIRKS = {"SendNoExpiry": ["NotStranded"]}
+
 PROFILES = {
     "C03": dict(weights={"send": 12, "up": 8, "stall": 1, "tick": 2, "flush": 2}, quirks=["PinnedExpiry"]),
     "C04": dict(weights={"send": 10, "up": 3, "stall": 6, "tick": 1, "flush": 2}, quirks=["RootStallIgnored"]),
@@ -232,9 +235,23 @@ def run(pid, tier):
             if e["e"] in ("ll", "up", "tick", "flush"):
                 ctx.cov["evaluations"] += 1
                 ctx.distinct((classify_ll(e), e.get("ty"), "w" if e.get("w") else "-"))
-    # ---- 4. trace validation
-    rej = check.validate_scripts(ctx, "Trace_Downlink.tla", "Trace_Downlink.cfg", items, timeout=900)
+    # ---- 4. trace validation.  Quirks (DESIGN.md section 6): known findings of other properties are switched on (and the
+    # invariant they concern is left to the property that owns it); known findings of this property are applied only to
+    # executions the literal specification refuses
+    base, own, other = check.quirk_cfg("Trace_Downlink.cfg", pid)
+    withown, _, _ = check.quirk_cfg("Trace_Downlink.cfg", pid, with_own=True)
+    own = {k: v for k, v in own.items() if check.QUIRKS[k][0] == "Q"}
+    ctx.cov["quirks_of_other_properties_applied"] = other
+    rej = check.validate_scripts(ctx, "Trace_Downlink.tla", "_td.cfg", items, timeout=900, extra_files={"_td.cfg": base})
     for s, ev, k, r in rej:
+        if own:
+            acc, consumed, r2 = check.validate("Trace_Downlink.tla", "_tk.cfg", ev, timeout=900, extra_files={"_tk.cfg": withown}); tlc.cleanup(r2)
+            if acc:
+                for kk, vv in own.items(): ctx.known_finding(kk, vv)
+                ctx.cov["traces_validated_against_impl"] += 1
+                ctx.cov["explained_by_known_finding"] = ctx.cov.get("explained_by_known_finding", 0) + 1
+                continue
+            k, r = consumed, r2
         what = "execution %s is not a behaviour of the specification: event %d %s refused%s" % (
             s.sid, k, json.dumps(ev[k])[:300] if k < len(ev) else "(end)", (" / invariant %s violated" % r.violation) if r.violation else "")
         state = check.explain("Trace_Downlink.tla", "Trace_Downlink.cfg", ev, k)
